@@ -30,7 +30,7 @@ RULE = ("each case = one config (random indentation tree, <= 40 lines, depth <= 
         "three two-argument forms at recurse False and True, the wo_child list form, re_search_children on lines 0 and 1), plus a sample of the "
         "length-3 chains; the flag cross-product (exactmatch, ignore_ws, escape_chars, reverse, recurse, documented defaults) is sampled on the "
         "random configs.  non-trivial = the answer is a non-empty proper selection (or a branch list with >= 1 branch) -- distinct by "
-        "(API, flags, chain length, size of answer, number of lines).")
+        "(API, flags, chain length, size of answer, number of lines). Every dumped forest must be the tree the text denotes: parents and child lists equal the indentation rule (spec_links, a Python restatement that the treespec stream compares with Model/Links.v spec_parents/spec_children on every generated config; configs without banner/macro lines) and child lists are exactly the ascending lines pointing to that parent.")
 EXHAUSTIVE = {"quick": True, "thorough": True}
 TRUSTED = [
     "Coq 8.16.1 kernel incl. vm_compute",
@@ -515,7 +515,35 @@ def _all_cases(rng, tier, escalate):
     return _CACHE[key]
 
 
+def gen_treespec(rng, tier, escalate):
+    seen, out = set(), []
+    for c in _all_cases(rng, tier, escalate):
+        t = tuple(c["cfg"])
+        if t not in seen:
+            seen.add(t)
+            out.append({"texts": list(t)})
+    # indentation shapes the search configs do not have: comments under deeper lines, whitespace-only lines, tabs
+    pool = ["a", " b", "  c", "   d", "!", " !x", "  !y", "", " ", "   ", "\tq", " \t r", "e f"]
+    for _ in range(600 * (4 if (tier == "thorough" or escalate) else 1)):
+        out.append({"texts": [rng.choice(pool) for _ in range(rng.randint(1, 9))]})
+    return out
+
+
+def run_treespec(c):
+    par, kids = spec_links(c["texts"])
+    return {"par": par, "kids": kids}
+
+
+def lit_treespec(c, o):
+    ps = "[" + "; ".join("None" if p == i else "Some %d" % p for i, p in enumerate(o["par"])) + "]"
+    return "(%s, %s, %s)" % (common.listlit([common.strlit(t) for t in c["texts"]]), ps, "[" + "; ".join(_nl(k) for k in o["kids"]) + "]")
+
+
 STREAMS = [
+    Stream("treespec", gen_treespec, run_treespec, lit_treespec, preamble=_PRE, ctype="spec_case", agree="agree_spec", show="model_spec",
+           nontrivial=lambda c, o: tuple((len(t) - len(t.lstrip()), t.lstrip()[:1] == "!", not t.strip()) for t in c["texts"]) if any(t.lstrip()[:1] == "!" and t[:1] == " " for t in c["texts"]) else None,
+           describe=lambda c, o: {"texts": c["texts"], "python_spec_parents": o["par"], "python_spec_children": o["kids"]}, shard=250,
+           rule="the Python restatement of the indentation rule used to vet dumped forests (spec_links) = Model/Links.v spec_parents/spec_children on every generated config"),
     _mk("lines", ("find", "root"), "find_objects (all flag combinations, list form) and CiscoConfParse.re_search_children"),
     _mk("branches", ("branches",), "find_object_branches, chains of 2..4 regexes, empty_branches, reverse, list/tuple form"),
     _mk("parents", ("parents_l", "parents_2"), "find_parent_objects: list form (1..4 regexes) and two-argument form with flags"),
